@@ -16,7 +16,8 @@ related() {
   esac
 }
 export -f related
-printf '%s\n' "$@" | xargs -P $LANES -I{} bash -c '
+printf '%s\n' "$@" | xargs -P $LANES --process-slot-var=SLOT -I{} bash -c '
+  export ALT_TARGET=/tmp/alt-target-$SLOT
   id={}; p=${id%%-*}
   ids="$p $(related $id)"
   ids=$(echo $ids | tr " " "\n" | grep -v "^C20$" | awk "NF && !s[\$0]++" | tr "\n" " ")
